@@ -50,7 +50,12 @@ class Run:
         res = ex.run_entry(rec, **kw)
         for n in res.notes:
             if n.get("what") == "unknown_call":
-                self.unknown_calls.setdefault(n.get("key") or n.get("callee"), set()).add(rec["pretty"])
+                if n.get("effects", True):
+                    self.unknown_calls.setdefault(n.get("key") or n.get("callee"), set()).add(rec["pretty"])
+                else:
+                    note = "opaque pure external call (plain-value arguments, result unknown): %s" % (n.get("key") or n.get("callee"))
+                    if note not in self.notes:
+                        self.notes.append(note)
         self.analysed["functions"] |= res.cone
         self.analysed["entries"].append("%s[%s]" % (rec["pretty"], ex.F.config))
         return res
@@ -216,8 +221,11 @@ def main(argv):
         tb = traceback.format_exc()
         R.undecided("ENGINE", "engine|crash", "checker crashed: %s\n%s" % (e, tb[-1500:]))
 
-    # an external function without a contract in summaries.py is opaque: whatever it does to its arguments or the
-    # hardware is invisible to every rule whose cone reaches it, so no rule may pass over it
+    # an external function without a contract in summaries.py is opaque. If it is handed a mutable reference, a closure
+    # or an object of an abstract type, whatever it does with them (hardware operations included) is invisible to every
+    # rule whose cone reaches it, so no rule may pass over it. A function of plain values can only compute its result,
+    # which the interpreter treats as a fresh unknown: rules that need the value fail on their own, the others are
+    # unaffected; those calls are listed in the evidence notes.
     for k, v in sorted(R.unknown_calls.items()):
         R.undecided("ENGINE", "engine|unmodelled-call|%s" % k,
                     "the code analysed for this property calls %s, for which the interpreter has no contract (reached from %s): "
